@@ -66,6 +66,7 @@ func runC08(e *env) {
 	e.m.Extra = map[string]interface{}{"mismatch_means": "property"}
 	var specs []*modSpec
 	specs = append(specs, corpusSQL()...)
+	specs = append(specs, repoFixtures("repo-sql-models")...)
 	n := 12
 	if e.thorough() {
 		n = 200
